@@ -18,6 +18,7 @@
 -/
 import CijProofs.Lemmas.VRHExamples
 import CijProofs.Lemmas.VRHSource
+import CijProofs.Lemmas.CalcGlueSource
 namespace Cij.C07
 
 open Cij Cij.VRH Matrix
@@ -305,5 +306,249 @@ theorem c07_model_is_source (c11 c22 c33 c12 c23 c13 c44 c55 c66 s11 s22 s33 s12
   ⟨bulkVoigt_is_source c11 c22 c33 c12 c23 c13 c44 c55 c66 e hc, shearVoigt_is_source c11 c22 c33 c12 c23 c13 c44 c55 c66 e hc,
    bulkReuss_is_source s11 s22 s33 s12 s23 s13 s44 s55 s66 e hs, shearReuss_is_source s11 s22 s33 s12 s23 s13 s44 s55 s66 e hs,
    (hill_is_source e).1, (hill_is_source e).2, mass_is_source e, vp_is_source e, vs_is_source e⟩
+
+/-! #### the GLUE is the source: `Calculator` / `CijVolumeBaseInterface` around the formulas
+
+`tools/gens/calc_src.py` re-extracts on every run, as data (`Generated/CalcGlueSpec.lean`): `REGEX_CIJ` and its parts, the dispatch
+of `CijVolumeBaseInterface.__getattr__`, the index arithmetic / stores / loops of `_calculate_compliances`, the statements of
+`Calculator.__init__` with the attributes every method reads and writes, the wiring of `_process_cij`,
+`_calculate_pressure_static`, `_interpolate_modes`, `_apply_elastic_constants_symmetry`, `modulus_keys`, `dims`, `write_output`,
+and for every class: bases, class-level / module-level assignments with the kind of value, default arguments, decorators,
+names defined, and per method the in-place operations on anything reachable from `self`.  `CijModel/CalcGlue.lean` gives the
+data their meaning (evaluators, run at `Float` by the driver against the real classes).  The theorems below say that the
+hand-written model about which everything above is proved IS the evaluation of these data, for all inputs.  A changed
+offset, comparison, store, group number, pattern, decorator, a class-level container or an in-place update in the Python
+source changes the data and these theorems no longer check (or the translator reports the method that left its grammar). -/
+
+open Cij.CalcGlue Generated.CalcGlue
+
+/-- the assembly loop of `_calculate_compliances`, evaluated from the extracted index data (`[i-1, j-1]`, both orders of
+`key.voigt`, store `modulus_adiabatic`, keys from `modulus_keys`), is `assembleEntry` — for EVERY dictionary `kv` (any key order, any
+subset, any scalar type: also the `Float` run) and every cell -/
+theorem calc_glue_is_source_assembly {α : Type} [Scalar α] (kv : KV α) (i j : Int) :
+    assembleSpec complSpec kv (i - 1) (j - 1) = assembleEntry kv i j ∧
+    complSpec.store = "modulus_adiabatic" ∧ complSpec.keysFrom = "modulus_keys" ∧ complSpec.keyAttr = "voigt" ∧
+    complSpec.shape = (6, 6) ∧ complSpec.dimsAttr = "dims" :=
+  ⟨assembleSpec_gen kv i j, by decide, by decide, by decide, by decide, by decide⟩
+
+/-- … hence, by `c07_assembly`: whatever the order of `modulus_keys` (`inp'` any permutation of `inp`), cell `[i-1, j-1]` holds the value of
+the canonical key of the unordered pair {i, j}, and the matrix is symmetric -/
+theorem calc_glue_is_source_assembly_any_order (inp inp' : Inputs ℝ) (hk : Keys inp) (hp : inp.modAd.Perm inp'.modAd)
+    (t v : Nat) (i j : Int) (hij : (i, j) ∈ allPairs) :
+    assembleSpec complSpec (kvAt inp'.modAd t v) (i - 1) (j - 1) = val (kvAt inp.modAd t v) (canon (i, j)) ∧
+    assembleSpec complSpec (kvAt inp'.modAd t v) (i - 1) (j - 1) = assembleSpec complSpec (kvAt inp'.modAd t v) (j - 1) (i - 1) := by
+  rw [assembleSpec_gen, assembleSpec_gen]
+  have h := Cmat_perm inp inp' hk hp t v i j hij
+  have h' := Cmat_eq inp' (keys_perm inp inp' hk hp) t v i j hij
+  exact ⟨by rw [← (Cmat_eq inp hk t v i j hij).1]; exact h.symm, h'.2⟩
+
+/-- the labelling loop, evaluated from the extracted data (`range(6)²`, skip `i > j`, label `c_(i+1, j+1)`, read `[i, j]`), is `complDict`;
+there is ONE `numpy.linalg.inv` call; the dict it fills is the one `__getattr__` serves the `s…` names from -/
+theorem calc_glue_is_source_labels {α : Type} (S : Nat → Nat → Int → Int → α) (nt nv : Nat) :
+    complDictSpec complSpec S nt nv = complDict S nt nv ∧ complSpec.invCalls = 1 ∧
+    complSpec.dictAttr = "_compliances" ∧
+    (∀ b ∈ getattrBranches, b.lit = "s" → b.member = complSpec.dictAttr ∧ b.elseStore = complSpec.dictAttr) :=
+  ⟨complDictSpec_gen S nt nv, by decide, by decide, by decide⟩
+
+/-- **label (i, j) holds the (i, j) entry of the inverse of the assembled matrix, whatever the order of `modulus_keys`**: for two
+presentations of the same dictionary and ANY batched inverses `S`, `S'` (`C·S = 1` at the grid point), the arrays served as `sIJ` agree there
+and are the (I, J) entry of Mathlib's `(toMat C)⁻¹` -/
+theorem calc_glue_label_is_inverse_entry (inp inp' : Inputs ℝ) (hk : Keys inp) (hp : inp.modAd.Perm inp'.modAd)
+    (S S' : Nat → Nat → Int → Int → ℝ) (nt nv t v : Nat) (ht : t < nt) (hv : v < nv)
+    (hinv : toMat (Cmat inp t v) * toMat (S t v) = 1) (hinv' : toMat (Cmat inp' t v) * toMat (S' t v) = 1)
+    (a b : Fin 6) (hab : (ix a, ix b) ∈ keys21) :
+    ∃ f f', getS (complDictSpec complSpec S nt nv) (ix a) (ix b) = some f ∧
+      getS (complDictSpec complSpec S' nt nv) (ix a) (ix b) = some f' ∧
+      fieldAt f t v = (toMat (Cmat inp t v))⁻¹ a b ∧ fieldAt f' t v = fieldAt f t v := by
+  rw [complDictSpec_gen, complDictSpec_gen]
+  refine ⟨_, _, getS_complDict S nt nv (ix a, ix b) hab, getS_complDict S' nt nv (ix a, ix b) hab, ?_, ?_⟩
+  · show sv S nt nv t v (ix a) (ix b) = _
+    rw [sv_eq S nt nv t v ht hv, ← right_inv_eq_inv _ _ hinv]; rfl
+  · have hC : toMat (Cmat inp' t v) = toMat (Cmat inp t v) :=
+      toMat_congr _ _ (fun i j hij => (Cmat_perm inp inp' hk hp t v i j hij).symm)
+    rw [hC] at hinv'
+    show sv S' nt nv t v (ix a) (ix b) = sv S nt nv t v (ix a) (ix b)
+    rw [sv_eq S nt nv t v ht hv, sv_eq S' nt nv t v ht hv]
+    show toMat (S' t v) a b = toMat (S t v) a b
+    rw [right_inv_eq_inv _ _ hinv, right_inv_eq_inv _ _ hinv']
+
+/-- no class-level mutable attribute, no module-level container, no mutable default, no base class / metaclass, only
+`property` / `LazyProperty` decorators, no name defined twice (`NoSharedState`, Lemmas/CalcGlueSource.lean) -/
+theorem calc_glue_no_shared_state : NoSharedState := by decide
+/-- no property body writes in place into anything reachable from `self` (`NoInplace`) -/
+theorem calc_glue_no_inplace : NoInplace := by decide
+
+/-! #### name lookup: REGEX_CIJ and `__getattr__` -/
+
+/-- `re.search(REGEX_CIJ, name)` as extracted accepts EXACTLY: prefix `c`|`s`, optional `_`, two Voigt digits 1–6 or four standard
+digits 1–3, optional suffix `s`|`t`, optionally ONE trailing newline (Python's `$`); and `group(1..3)` are these parts -/
+theorem calc_glue_is_source_lookup_language (name : String) (q : Parsed) :
+    matchName regexParts getattrMatchFn name.toList = some q ↔
+      ((q.pre = 'c' ∨ q.pre = 's') ∧
+       ((q.digits.length = 2 ∧ ∀ c ∈ q.digits, '1' ≤ c ∧ c ≤ '6') ∨ (q.digits.length = 4 ∧ ∀ c ∈ q.digits, '1' ≤ c ∧ c ≤ '3')) ∧
+       (q.suf = none ∨ q.suf = some 's' ∨ q.suf = some 't')) ∧
+      ∃ u, (u = [] ∨ u = ['_']) ∧ ∃ nl, (nl = [] ∨ nl = ['\n']) ∧
+        name.toList = q.pre :: (u ++ (q.digits ++ q.suf.toList)) ++ nl :=
+  matchName_gen name.toList q
+
+/-- the extracted dispatch of `__getattr__`, for every name and every content of the dictionaries: `c…` needs the key in `modulus_keys` and
+is isothermal exactly for suffix `t`, adiabatic otherwise; `s…` is served from `_compliances` for EVERY suffix (the source's test
+`res.group(1) == 't'` can never hold, so `s11t` is the adiabatic compliance rather than an error); anything else AttributeError -/
+theorem calc_glue_is_source_lookup_dispatch (hasKey : String → Modulus → Bool) (name : String) :
+    resolve regexParts getattrMatchFn getattrBranches hasKey name =
+      match matchName regexParts getattrMatchFn name.toList with
+      | none => .attributeError
+      | some q =>
+        let key := keyOfVoigt (canon (pairOfDigits q.digits))
+        if q.pre = 'c' then
+          if hasKey "modulus_keys" key then
+            (if q.suf = some 't' then .served "modulus_isothermal" key else .served "modulus_adiabatic" key)
+          else .attributeError
+        else
+          if hasKey "_compliances" key then .served "_compliances" key else .attributeError :=
+  resolve_gen hasKey name
+
+/-- `c_(res.group(2))` never raises on an accepted name: it is the canonical key of the Voigt pair the digits name -/
+theorem calc_glue_lookup_key_defined (name : String) (q : Parsed)
+    (h : matchName regexParts getattrMatchFn name.toList = some q) :
+    Modulus.create [.str (String.ofList q.digits)] = some (keyOfVoigt (canon (pairOfDigits q.digits))) ∧
+      canon (pairOfDigits q.digits) ∈ keys21 :=
+  create_digits q.digits (good_digits q ((matchName_gen _ q).1 h).1)
+
+/-- the reads `self.cIJ` / `self.sIJ` of the averaging properties (`getC`, `getS` of the model: `(attrKey i j).bind (find d)`) are this
+dispatch: adiabatic stiffness, reported compliances — for all 36 index pairs and all dictionaries -/
+theorem calc_glue_is_source_averages_read {β : Type} (s : Stores β) (hkeys : s.keys = s.adiabatic.map (·.1)) (p : Int × Int)
+    (hp : p ∈ allPairs) :
+    lookup regexParts getattrMatchFn getattrBranches s ("c" ++ toString p.1 ++ toString p.2)
+        = (attrKey p.1 p.2).bind (find s.adiabatic) ∧
+    lookup regexParts getattrMatchFn getattrBranches s ("s" ++ toString p.1 ++ toString p.2)
+        = (attrKey p.1 p.2).bind (find s.compliances) := by
+  obtain ⟨h1, h2, h3⟩ := names_IJ p hp
+  rw [lookup_c_gen s hkeys _ _ none (by simp) h1, lookup_s_gen s _ _ none h2, h3]
+  exact ⟨rfl, rfl⟩
+
+open Classical in
+/-- every spelling, every suffix, as a function of the three dictionaries -/
+theorem calc_glue_lookup_suffixes {β : Type} (s : Stores β) (hkeys : s.keys = s.adiabatic.map (·.1)) (name : String)
+    (q : Parsed) (h : matchName regexParts getattrMatchFn name.toList = some q) :
+    let key := keyOfVoigt (canon (pairOfDigits q.digits))
+    lookup regexParts getattrMatchFn getattrBranches s name =
+      if q.pre = 'c' then
+        (if q.suf = some 't' then (if key ∈ s.keys then find s.isothermal key else none) else find s.adiabatic key)
+      else find s.compliances key := by
+  obtain ⟨⟨hp, _, _⟩, _⟩ := (matchName_gen _ q).1 h
+  obtain ⟨p, d, sf⟩ := q
+  simp only at hp
+  rcases hp with rfl | rfl
+  · by_cases ht : sf = some 't'
+    · subst ht
+      simp only [if_true]
+      unfold lookup
+      rw [resolve_gen, h]
+      show (match expected s.hasKey ⟨'c', d, some 't'⟩ with
+        | .served st key => (s.get st).bind fun d => find d key
+        | _ => none) = _
+      unfold expected
+      rw [if_pos rfl, hasKey_modulus_keys, if_pos rfl]
+      by_cases hmem : keyOfVoigt (canon (pairOfDigits d)) ∈ s.keys
+      · rw [if_pos (List.any_eq_true.2 ⟨_, hmem, by simp⟩), if_pos hmem]
+        show (s.get "modulus_isothermal").bind _ = _
+        rw [get_isothermal]; rfl
+      · rw [if_neg (fun hh => hmem (by obtain ⟨x, hx, e⟩ := List.any_eq_true.1 hh; rw [← of_decide_eq_true e]; exact hx)),
+          if_neg hmem]
+    · dsimp only
+      rw [if_pos rfl, if_neg ht]
+      exact lookup_c_gen s hkeys name d sf ht h
+  · have hsc : ¬ 's' = 'c' := by decide
+    dsimp only
+    rw [if_neg hsc]
+    exact lookup_s_gen s name d sf h
+
+/-! #### `__init__`, wiring -/
+
+/-- `Calculator.__init__`: the order of the calls; every attribute exists before it is read (through sibling properties and the
+`__getattr__` delegation to `qha_calculator` as well); the cached `modulus_keys` is not read before the symmetry filling has added its
+keys; which class each interface is; `write_output` hands `output[<name>]` to the interface of the same name -/
+theorem calc_glue_is_source_init :
+    callOrder initSteps = ["_load", "_apply_elastic_constants_symmetry", "_interpolate_modes", "_calculate_pressure_static",
+      "_process_cij", "_calculate_compliances"] ∧
+    initOk calcMethods calcDelegate initSteps [] = true ∧
+    notReadBefore calcMethods "modulus_keys" "_apply_elastic_constants_symmetry" initSteps = true ∧
+    initInterfaces = [("volume_based_result", "CijVolumeBaseInterface"), ("pressure_based_result", "CijPressureBaseInterface")] ∧
+    interfaceProps = [("volume_base", "property", "volume_based_result"), ("pressure_base", "property", "pressure_based_result")] ∧
+    (∀ e ∈ writeOutputDispatch, e.1 = e.2.1 ∧ e.2.2 = "write_variables") ∧ writeOutputPath = ["output"] := by
+  decide
+
+/-- the smaller pieces: `_process_cij` (adiabatic ↦ adiabatic, isothermal ↦ isothermal of `FullThermalElasticModulus`), static pressure
+(order 3, both strains referred to `volumes[0]`, `−gradient/gradient` on `v_array`), `_interpolate_modes` (configuration paths;
+`mode_gamma = [r₂, r₁, r₁²]` of the returned triple), symmetry filling skipped exactly for an absent system and `triclinic`,
+`modulus_keys` a LazyProperty over `volumes[0]`, `dims` -/
+theorem calc_glue_is_source_wiring :
+    processCijHolder.2 = "FullThermalElasticModulus" ∧
+    processCijWiring = [("modulus_adiabatic", "modulus_adiabatic"), ("modulus_isothermal", "modulus_isothermal")] ∧
+    pressureStatic.defaultOrder = 3 ∧ pressureStatic.refNodes = 0 ∧ pressureStatic.refGrid = 0 ∧ pressureStatic.sign = -1 ∧
+    pressureStatic.gridAttr = "v_array" ∧ pressureStatic.denomAttr = "v_array" ∧ pressureStatic.target = "static_p_array" ∧
+    interpolateModes.methodPath = ["elast", "settings", "mode_gamma", "interpolator"] ∧
+    interpolateModes.orderPath = ["elast", "settings", "mode_gamma", "order"] ∧
+    interpolateModes.freqIdx = 0 ∧ interpolateModes.gamma = [(2, 1), (1, 1), (1, 2)] ∧
+    (∀ system : Option String, symmetrySpec.fills system = (system ≠ none ∧ system ≠ some "triclinic")) ∧
+    symmetrySpec.path = ["elast", "settings", "symmetry"] ∧ symmetrySpec.systemKey = "system" ∧
+    modulusKeysSpec = ("LazyProperty", 0) ∧ dimsSpec = ("property", "t_array", "v_array") := by
+  refine ⟨by decide, by decide, by decide, by decide, by decide, by decide, by decide, by decide, by decide, by decide,
+    by decide, by decide, by decide, ?_, by decide, by decide, by decide, by decide⟩
+  intro system
+  simp only [SymmetrySpec.fills, symmetrySpec]
+  rcases system with _ | s
+  · simp
+  · by_cases h : s = "triclinic" <;> simp [h]
+
+/-! #### no shared state, no in-place writes; hence the order of reads cannot matter -/
+
+open Cij.Memo Cij.LazyGraph in
+/-- **read order cannot matter**: with no shared state and no in-place write, every property of `CijVolumeBaseInterface` is a pure function
+of the object's inputs and of the properties it reads; on the property graph extracted NOW (whatever mix of `@property` and
+`@LazyProperty` the source has; acyclicity certificate by kernel evaluation) the read-through-memo theorems of
+`Lemmas/MemoHistory.lean` (`history_total`, `history_sound`) give: for ANY two lists of earlier reads, the values a read of `p` sees are
+the same -/
+theorem calc_glue_read_order_free {β : Type} [Inhabited β] (f : String → List β → β) (before₁ before₂ : List String)
+    (p : String) :
+    NoSharedState ∧ NoInplace ∧ ranked volumeBaseDeps = true ∧
+    ∃ vs₁ t₁ vs₂ t₂,
+      history (defsOf volumeBaseDeps f) (fuelOf volumeBaseDeps)
+        (before₁.flatMap (expandOp volumeBaseDeps) ++ expandOp volumeBaseDeps p) [] = some (vs₁, t₁) ∧
+      history (defsOf volumeBaseDeps f) (fuelOf volumeBaseDeps)
+        (before₂.flatMap (expandOp volumeBaseDeps) ++ expandOp volumeBaseDeps p) [] = some (vs₂, t₂) ∧
+      vs₁.drop (before₁.flatMap (expandOp volumeBaseDeps)).length = vs₂.drop (before₂.flatMap (expandOp volumeBaseDeps)).length := by
+  have hr : ranked volumeBaseDeps = true := by decide +kernel
+  obtain ⟨vs₁, t₁, h₁, e₁⟩ := reads_history_free volumeBaseDeps hr f before₁ p
+  obtain ⟨vs₂, t₂, h₂, e₂⟩ := reads_history_free volumeBaseDeps hr f before₂ p
+  exact ⟨by decide, by decide, hr, vs₁, t₁, vs₂, t₂, h₁, h₂, by rw [e₁, e₂]⟩
+
+/-! #### non-vacuity for the glue theorems -/
+
+/-- concrete names through the extracted pattern and dispatch (all keys present) -/
+example :
+    resolve regexParts getattrMatchFn getattrBranches (fun _ _ => true) "c12t" = .served "modulus_isothermal" (keyOfVoigt (1, 2)) ∧
+    resolve regexParts getattrMatchFn getattrBranches (fun _ _ => true) "c21" = .served "modulus_adiabatic" (keyOfVoigt (1, 2)) ∧
+    resolve regexParts getattrMatchFn getattrBranches (fun _ _ => true) "c_2311s\n" = .served "modulus_adiabatic" (keyOfVoigt (1, 4)) ∧
+    resolve regexParts getattrMatchFn getattrBranches (fun _ _ => true) "s66t" = .served "_compliances" (keyOfVoigt (6, 6)) ∧
+    resolve regexParts getattrMatchFn getattrBranches (fun _ _ => false) "c11" = .attributeError := by decide
+
+/-- … and names outside the language -/
+example : ∀ n ∈ ["c17", "c123", "C11", "c11x", "c11\n\n", "c__11", "xc11", "c1", "", "c4444", "s11st"],
+    resolve regexParts getattrMatchFn getattrBranches (fun _ _ => true) n = .attributeError := by decide
+
+/-- the hypotheses of the any-order theorems: the example dictionary listed backwards -/
+example : Keys exInp ∧ exInp.modAd.Perm ({ exInp with modAd := exInp.modAd.reverse } : Inputs ℝ).modAd :=
+  ⟨orthoDict_keys _ _ _ _ _ _ _ _ _, (List.reverse_perm _).symm⟩
+
+/-- the memo corollary is not about an empty graph only: on a table shaped like the one a caching refactor would produce (averages as
+LazyProperty, Hill reading Reuss and Voigt) two orders of reads see the same values -/
+example : (Cij.Memo.history (Cij.LazyGraph.defsOf (β := Int)
+      [("bulk_modulus_reuss", true, []), ("bulk_modulus_voigt", true, []),
+       ("bulk_modulus_voigt_reuss_hill", true, ["bulk_modulus_reuss", "bulk_modulus_voigt"])]
+      (fun n vs => match n with | "bulk_modulus_reuss" => 3 | "bulk_modulus_voigt" => 5 | _ => vs.sum)) 4
+      ["bulk_modulus_voigt_reuss_hill", "bulk_modulus_reuss", "bulk_modulus_voigt_reuss_hill"] []).map (·.1) = some [8, 3, 8] := by
+  decide +kernel
 
 end Cij.C07
